@@ -687,9 +687,21 @@ class Interp:
             return BV((BNL(),))
         return None
 
+    def bv_refine(self, parts):
+        """View segments the path has decided to contain a carriage return as head (ends with the CR) + tail."""
+        out = []
+        for x in parts:
+            if isinstance(x, BSeg) and not (x.lo or x.hi) and self.facts.get(f"hascr:{x.name}") is True:
+                out.append(BSeg(x.name + "~h"))
+                if self.facts.get(f"crtail:{x.name}") is True:
+                    out.append(BSeg(x.name + "~t"))
+            else:
+                out.append(x)
+        return tuple(out)
+
     def bv_len(self, parts) -> Poly:
         p = Poly()
-        for x in parts:
+        for x in self.bv_refine(parts):
             if isinstance(x, BNL):
                 p = p + Poly.const(1)
             else:
@@ -700,6 +712,7 @@ class Interp:
         """Split `parts` at byte offset `pos` -> (left, right), or None when the offset is
         neither at a part boundary nor a constant number of bytes from one."""
         acc = Poly()
+        parts = self.bv_refine(parts)
         for i, x in enumerate(parts):
             if (pos - acc).is_zero():
                 return tuple(parts[:i]), tuple(parts[i:])
